@@ -395,7 +395,7 @@ func TestVerifC20PathPairs(t *testing.T) {
 			{key: "src", names: []string{"src"}, static: true},
 			{key: "srcaa", names: []string{"srcaa"}, static: true, aa: true},
 		}
-		nv := rapid.IntRange(1, 3).Draw(t, "variants")
+		nv := rapid.IntRange(1, 4).Draw(t, "variants")
 		perm := rapid.Permutation([]int{0, 1, 2, 3, 4, 5, 6, 7}).Draw(t, "variantOrder")
 		var confs []*c20Conf
 		for _, i := range perm[:nv] {
@@ -696,7 +696,8 @@ func TestVerifC20PathPairs(t *testing.T) {
 					p.readers = append(p.readers, q.rdr)
 				}
 			case p.conf.demand:
-				if q.finished() {
+				// with the short start timeout the request may already have timed out when the harness gets to look
+				if q.finished() && !p.conf.shortTO {
 					fail(p.name, "harness precondition: a %s on an on-demand path without stream was answered at once (ok=%v err=%v)", kind, q.ok, q.err)
 				}
 				p.held = append(p.held, q)
@@ -926,6 +927,23 @@ func TestVerifC20PathPairs(t *testing.T) {
 					}
 				}
 				finish("after removeConf " + c.key)
+				// never leave the history without any configured path (rapid would not find a valid action):
+				// the last entry comes back at once
+				anyPresent := false
+				for _, c2 := range confs {
+					anyPresent = anyPresent || c2.present
+				}
+				if !anyPresent {
+					hist = append(hist, "restoreConf "+c.key)
+					c.present = true
+					reload()
+					for _, p := range paths {
+						if p.conf == c && !c.regex {
+							createInstance(p)
+						}
+					}
+					finish("after restoreConf " + c.key)
+				}
 			},
 			"restoreConf": func(t *rapid.T) {
 				c := pickConf(t, "conf", func(c *c20Conf) bool { return !c.present })
